@@ -25,6 +25,11 @@ class Regex(Expression):
             pattern = pattern.decode('ascii')
 
         pattern = pattern.replace('\\', '\\\\')
+
+        # This text ends up in comments and docstrings of the generated code. A
+        # carriage return would end the line there, and null bytes are not
+        # allowed at all.
+        pattern = pattern.replace('\r', '\\r').replace('\x00', '\\x00')
         flag = 'i' if self.ignore_case else ''
         return f'/{pattern}/{flag}'
 
